@@ -43,7 +43,7 @@ def strategy(tier):
 def fixed_cases(tier):
     base = [["func", "SmoothStronglyConvexFunction", {"mu": 0.1, "L": 1}, None, False], ["init_point", None],
             ["stat", 0, None], ["gd", 0, 0, 1.0], ["oracle", 0, 3], ["expr", "sqdist", 0, 1],
-            ["cons", "init", 2, "<=", 1, None], ["expr", "sqdist", 3, 1], ["metric", 3, None]]
+            ["cons", "init", 3, "<=", 1, None], ["expr", "sqdist", 3, 1], ["metric", 4, None]]
     o = {"wrapper": "cvxpy", "solver": "CLARABEL", "verbose": 0, "ret": "primal"}
     return [{"instrs": base, "opts": o, "pre": [["P", 3, 0], ["derP", 0, 1], ["C", 0, 0]],
              "post": [["fresh_then_derP", 0, 1, 2], ["derE", 0, 3, -1], ["cons", 1, 2, 1], ["lmi", 0, 1, 1]],
@@ -125,8 +125,8 @@ def check_case(case, ctx):
             pass
         held.append(("pre-evaluated:" + kind, obj))
     ob = oracles.solve_observed(env, opts)
-    if ob.exc is not None:
-        raise ob.exc
+    if oracles.solver_gave_up(ob, ctx):
+        return
     if ob.result is None:
         ctx.label("solve:none")
         return
